@@ -521,12 +521,58 @@ def run_attached(shard, ctx):
 
     rng = ctx.rng()
 
-    def device(devtype, log, qualifier=0):
+    def device(devtype, log, qualifier=0, ident=None):
         def fill(cmd):
             log.append(cmd)
             if cmd.cdb[0] == 0x12 and len(cmd.datain):
                 cmd.datain[0] = (qualifier << 5) | devtype
+                if ident is not None and len(cmd.datain) >= 36 and not cmd.cdb[1] & 1:
+                    cmd.datain[2:5] = bytes([6, 2, 31])
+                    cmd.datain[8:16] = ident[0].ljust(8)[:8]
+                    cmd.datain[16:32] = ident[1].ljust(16)[:16]
+                    cmd.datain[32:36] = b"1.0 "
         return harness.Recorder(E.spc, fill)
+
+    # what a unit calls itself does not change which command a method sends: every method on units with the identification strings
+    # of real hardware (disk-like units; each method of the block command set, one call per identity)
+    from vmon.sim.target import KNOWN_IDS
+
+    for c in S.COMMANDS.values():
+        if not c.facade or "sbc" not in c.sets:
+            continue
+        for ident in KNOWN_IDS:
+            log = []
+            dev = device(0x00, log, 0, ident)
+            try:
+                s = SCSI(dev, 512)
+            except Exception as e:  # noqa: BLE001
+                ctx.fail("C13:attached.attach_raises.%s" % type(e).__name__, "attach to a unit calling itself %r raised %s" % (ident, e), {"identity": list(ident)}, exc=e)
+                break
+            del log[:]
+            a = dict(required_args(c, rng))
+            if "blocksize" in a and c.xfer != "ata":
+                a["blocksize"] = 512
+            wit = {"method": c.facade, "cmd": c.name, "unit_calls_itself": [ident[0].decode(), ident[1].decode()], "args": a}
+            ctx.case(("attached-identity", c.facade, ident), True)
+            ctx.count("attached_identity_calls")
+            try:
+                harness.facade_call(c, s, DO.fresh(a) if c.custom else dict(a))
+                err = None
+            except Exception as e:  # noqa: BLE001
+                err = e
+            if len(log) != 1:
+                ctx.fail("C13:%s.attached.execute_count_%d" % (c.facade, len(log)), "%s on a unit calling itself %r: %d commands (%s)" % (c.facade, ident, len(log), err), wit, exc=err)
+                continue
+            chk = dict(harness.defaults(c))
+            chk.update(a)
+            if c.custom:
+                chk["_outlen"] = len(log[0].dataout)
+            chk.update(c.facade_fixed)
+            if log[0].cdb[0] != c.op:
+                ctx.fail("C13:%s.attached.opcode.sbc" % c.facade, "cdb[0]=%02Xh on a unit calling itself %r, the sbc table says %02Xh" % (log[0].cdb[0], ident, c.op), wit)
+                continue
+            for mech, msg in harness.check_cdb(c, log[0].cdb, chk):
+                ctx.fail("C13:%s.attached.cdb.%s" % (c.facade, mech), "%s on a unit calling itself %r: %s" % (c.facade, ident, msg), dict(wit, cdb=bytes(log[0].cdb)))
 
     # attached and nothing else: with every peripheral qualifier, each method of the set that the reported *type* selects sends
     # its one command with that set's operation code
@@ -719,12 +765,28 @@ def _run_transport(shard, ctx, rng, sg, isc, skew):
     from vmon.sim import devnode, install
     from vmon.spec import cdb as S, dataout as DO
 
-    for t in ("sgio", "iscsi"):
-        mod = sg if t == "sgio" else isc
+    import os
+
+    others = []
+    for t in ("sgio", "sgio-chardev", "iscsi"):
+        mod = sg if t.startswith("sgio") else isc
         if t == "sgio":
             dev, node = install.sgio_device()
+        elif t == "sgio-chardev":
+            # the node is a character special file, as /dev/sg* are; a re-plugged unit gets a node with the same device number
+            if not devnode.chardev_possible():
+                ctx.count("chardev_nodes_unavailable")
+                continue
+            from pyscsi.pyscsi.scsi_device import SCSIDevice
+
+            node = devnode.new_node(link="chardev")
+            dev = SCSIDevice(node, True, True)
+            t = "sgio"
+            ctx.count("transport_passes_over_character_nodes")
         else:
             dev, node = install.iscsi_device(), None
+            # further logical units of the same target, opened later and alive all the time
+            others = [install.iscsi_device("iscsi://127.0.0.1:3260/iqn.2003-01.org.example:target0/%d" % lun) for lun in (5, 300)]
         s = harness.make_facade(dev)
         try:
             for rep in range(shard["reps"]):
@@ -763,6 +825,11 @@ def _run_transport(shard, ctx, rng, sg, isc, skew):
                                  % (c.facade, t, " right after the node was replaced" if replugged else "", len(mod.log)), wit)
                         continue
                     ev = mod.log[0]
+                    if t == "iscsi" and ev.get("lun") != 0:
+                        ctx.fail("C13:%s.transport.iscsi.sent_to_other_logical_unit" % c.facade, "the command of the device opened on LUN 0 was addressed to LUN %r (other devices of the process are open on LUNs 5 and 300)" % ev.get("lun"), wit)
+                    if t == "sgio" and not ev.get("file_closed") and ev.get("ino") != os.stat(node).st_ino:
+                        ctx.fail("C13:%s.transport.sgio.sent_through_handle_of_replaced_node" % c.facade, "the handle given to the binding is not on the node now at the device path%s"
+                                 % (" (the node was replaced before this call)" if replugged else ""), wit)
                     if cmd is not None:
                         if bytes(ev["cdb"]) != bytes(cmd.cdb) or len(cmd.cdb) != c.length or len(ev["cdb"]) != c.length:
                             ctx.fail("C13:%s.transport.%s.cdb_differs" % (c.facade, t), "the binding received %s, the returned command holds %s (a %d-byte command)"
@@ -774,10 +841,12 @@ def _run_transport(shard, ctx, rng, sg, isc, skew):
                         ctx.count("transport_buffers_identified")
         finally:
             sg.resid = None
-            try:
-                dev.close()
-            except Exception:  # noqa: BLE001
-                pass
+            for d in [dev] + others:
+                try:
+                    d.close()
+                except Exception:  # noqa: BLE001
+                    pass
+            others = []
             mod.log = []
 
 
